@@ -22,10 +22,22 @@ impl Prop for Offsets {
     }
     fn judge(&self, c: &Case) -> Outcome {
         let st = features(&c.prog, c.w);
-        let run = match run_l2(&c.prog, c.w, Which::Offsets) {
+        let mut run = match run_l2(&c.prog, c.w, Which::Offsets) {
             Ok(r) => r,
             Err(o) => return o,
         };
+        // the same description at the other pointer width, when it is valid there too (pointer-free layouts mostly)
+        let other = if c.w == 4 { 8 } else { 4 };
+        let mut both = false;
+        if run.out.probes.iter().all(|p| p.found.is_none()) && run.out.errors.is_empty() && crate::checks::c13::other_width_ok(c) {
+            if let Ok(r2) = run_l2(&c.prog, other, Which::Offsets) {
+                if r2.out.probes.iter().any(|p| p.found.is_some()) {
+                    run = r2;
+                } else if r2.out.errors.is_empty() {
+                    both = true;
+                }
+            }
+        }
         let bad: Vec<_> = run.out.probes.iter().filter(|p| p.found.is_some()).collect();
         if !bad.is_empty() {
             let mut d = String::new();
@@ -43,6 +55,9 @@ impl Prop for Offsets {
         }
         let nontrivial = st.structs >= 1 && st.named_fields >= 2 && (st.explicit_gap || st.nested_by_value || st.vptr || st.packed_misaligned);
         let mut o = Outcome::pass(nontrivial).class(&format!("width:{}", c.w));
+        if both {
+            o = o.class("both-widths");
+        }
         for (k, v) in [("explicit_gap", st.explicit_gap), ("nested_by_value", st.nested_by_value), ("vptr", st.vptr), ("packed_misaligned", st.packed_misaligned), ("bases", st.bases), ("cross_module", st.cross_module)] {
             if v {
                 o = o.class(k);
